@@ -160,5 +160,65 @@ pub fn run(ctx: &Ctx, rec: &mut Rec) {
             judge(ctx, rec, P, "hash_to_curve", got, &want, json!({"a": hexs(&a), "b": hexs(&bb)}));
         }
     });
+    // Elligator collisions: distinct inputs (r2 != +-r1) with the same image, and inputs whose images
+    // are opposite: hash_to_curve must give 2P resp. the identity. The preimage sets are computed in the
+    // model by inverting the map (up to 8 preimages per element).
+    rec.declare_class("elligator-collision:same-image");
+    rec.declare_class("elligator-collision:opposite-image");
+    par(rec, |w, n, rec| {
+        let mut rng = rng_for(ctx.seed, P, w, 7);
+        let targets = ctx.scale(48, 1500);
+        for ti in 0..targets {
+            if ti % n != w {
+                continue;
+            }
+            let seed_r0 = if ti < zoo.len().min(16) { zoo[(ti * 37) % zoo.len()].0.clone() } else { crate::zoo::rand_below(&mut rng, &f.p) };
+            let Some((pt, _)) = c.elligator_spec(&seed_r0) else { continue };
+            if pt.x == b(0) {
+                continue;
+            }
+            let pre = crate::eng::elligator_preimages(ctx, &pt, &mut rng);
+            let pre_neg = crate::eng::elligator_preimages(ctx, &c.neg(&pt), &mut rng);
+            if !pre.contains(&seed_r0) {
+                rec.inconclusive("harness: Elligator inversion did not recover the input it started from");
+                continue;
+            }
+            rec.count("preimage_sets", 1);
+            rec.count("preimages_found", (pre.len() + pre_neg.len()) as u64);
+            rec.set_insert("preimage_set_sizes", pre.len() as u64);
+            // every preimage maps to the element (one-input map)
+            for r0 in pre.iter() {
+                let lr = fq(r0);
+                rec.form("encode_to_curve");
+                rec.eval(&("preimage", r0.to_bytes_le()), false);
+                let got = guarded(|| El::encode_to_curve(&lr));
+                judge(ctx, rec, P, "encode_to_curve", got, &pt, json!({"r0": hexs(r0), "class": "elligator-preimage"}));
+            }
+            let want2 = c.double(&pt);
+            for (i, r1) in pre.iter().enumerate() {
+                for r2 in pre.iter().skip(i + 1) {
+                    if r2 == &f.neg(r1) {
+                        continue;
+                    }
+                    rec.class("elligator-collision:same-image");
+                    for (x, y) in [(r1, r2), (r2, r1)] {
+                        rec.form("hash_to_curve");
+                        rec.eval(&("hash-collision", x.to_bytes_le(), y.to_bytes_le()), false);
+                        let (la, lb) = (fq(x), fq(y));
+                        let got = guarded(|| El::hash_to_curve(&la, &lb));
+                        judge(ctx, rec, P, "hash_to_curve", got, &want2, json!({"a": hexs(x), "b": hexs(y), "class": "distinct inputs, same Elligator image"}));
+                    }
+                }
+                for r2 in pre_neg.iter() {
+                    rec.class("elligator-collision:opposite-image");
+                    rec.form("hash_to_curve");
+                    rec.eval(&("hash-opposite", r1.to_bytes_le(), r2.to_bytes_le()), false);
+                    let (la, lb) = (fq(r1), fq(r2));
+                    let got = guarded(|| El::hash_to_curve(&la, &lb));
+                    judge(ctx, rec, P, "hash_to_curve", got, &c.identity(), json!({"a": hexs(r1), "b": hexs(r2), "class": "inputs with opposite Elligator images"}));
+                }
+            }
+        }
+    });
     rec.check_coverage();
 }
